@@ -83,6 +83,20 @@ class Prover:
                       confirmed=res.get("confirmed", False), replay_path=res.get("replay_path"), key=res.get("key", oid), **info)
                 results[name] = "violated"
             else:
+                # no verdict from the solver: still look for a concrete counterexample (cheaper witness queries, native
+                # stress histories); only a natively confirmed one is reported
+                res = None
+                if witness_fn is not None:
+                    try:
+                        res = witness_fn(name, None, neg)
+                    except Exception as e:   # witness code may need the model
+                        res = None
+                if res and res.get("confirmed"):
+                    R.add(oid, "violated", solver_s=now() - t0, queries=env.STATS.queries - q0,
+                          detail="solver gave no verdict (%s); counterexample found by the witness search: %s" % (model, res.get("detail", "")),
+                          confirmed=True, replay_path=res.get("replay_path"), key=res.get("key", oid), **info)
+                    results[name] = "violated"
+                    continue
                 R.add(oid, "inconclusive", detail="solver: %s" % model, solver_s=now() - t0, queries=env.STATS.queries - q0, **info)
                 results[name] = "inconclusive"
         return results
